@@ -22,6 +22,7 @@ import Simfile.Lemmas.MsdTextStray
 import Simfile.Model.Source
 import Simfile.Model.Convert
 import Simfile.Model.Views
+import Simfile.Model.Equality
 import Simfile.Model.Edit
 import Simfile.Model.EditSSC
 import Simfile.Model.Dir
@@ -516,6 +517,15 @@ def handle (j : Json) : R Json := do
   | "views.run" =>
     let (d, outs) := vrunX (← getKind (← field j "kind")) (← getDict (← field j "d")) (← getArr getVOpX (← field j "ops"))
     pure (Json.mkObj [("d", jDict d), ("outs", jArr jVOut outs)])
+  | "views.eq" =>
+    -- BaseSimfile.__eq__ / SSCChart equality as CPython computes them (Model/Equality.lean); "plain": OrderedDict.__eq__ alone
+    let a ← getDict (← field j "a"); let b ← getDict (← field j "b")
+    let ca ← getArr getDict (fieldD j "charts_a" (Json.arr #[])); let cb ← getArr getDict (fieldD j "charts_b" (Json.arr #[]))
+    let k ← getStr (← field j "kind")
+    pure (jBool (if k = "plain".toList then orderedDictEq a b
+      else if k = "SMChart".toList then smChartEq a b
+      else simfileEq ⟨(if k = "SMSimfile".toList then .smSimfile else .sscSimfile), a, ca⟩
+                     ⟨(if (fieldD j "kind_b" (Json.str (String.ofList k))) == Json.str "SMSimfile" then .smSimfile else .sscSimfile), b, cb⟩))
   | "dir.scan" =>
     pure (match scanDir (← getArr getStr (← field j "listing")) (← getBool (← field j "ignore_duplicate")) with
       | .ok sd => jOk (Json.mkObj [("sm", jOptStr sd.sm), ("ssc", jOptStr sd.ssc),
